@@ -6,6 +6,7 @@ import GraphrsModel.Generated.FormulasC05
 import GraphrsModel.Model.Centrality
 import Mathlib.Tactic.Ring
 import Mathlib.Algebra.Order.Field.Rat
+import Mathlib.Data.Rat.Cast.Order
 namespace Graphrs
 
 theorem C05_src_scale (n : Nat) (normalized directed : Bool) :
@@ -30,5 +31,46 @@ def accumulateSrc (bc : List Rat) (r : SSR) : List Rat :=
 theorem C05_src_accumulate (bc : List Rat) (r : SSR) : accumulate bc r = accumulateSrc bc r := by
   unfold accumulate accumulateSrc Src.C05.accCoeff Src.C05.accDelta Src.C05.accSkipSource
   simp only [bne_iff_ne, ne_eq, decide_not, Bool.not_eq_eq_eq_not, Bool.not_true, decide_eq_false_iff_not]
+
+
+/-! ### the weighted search stage: the tests of the source, with `f64::MAX` as the "not yet" sentinel -/
+
+/-- how the model's `Option` reads as the f64 of the code: `none` is the sentinel `f64::MAX` -/
+def C05emb (fmax : Rat) : Option Int → Rat
+  | none => fmax
+  | some x => (x : Rat)
+
+theorem C05_src_stageDist (dist cost : Int) : ((dist + cost : Int) : Rat) = Src.C05.stageDist dist cost := by
+  unfold Src.C05.stageDist; push_cast; ring
+
+/-- **the improvement test of the model is the source's** `D[w] == f64::MAX && (seen[w] == f64::MAX || vw_dist < seen[w])`,
+    for every value `fmax` of the sentinel that no stored label takes -/
+theorem C05_src_stageImproves (fmax : Rat) (dW seenW : Option Int) (vw : Int)
+    (hd : ∀ x, dW = some x → (x : Rat) ≠ fmax) (hs : ∀ x, seenW = some x → (x : Rat) ≠ fmax) :
+    (dW.isNone && (match seenW with | none => true | some sw => decide (vw < sw)))
+      = Src.C05.stageImproves (C05emb fmax dW) (C05emb fmax seenW) (vw : Rat) fmax := by
+  unfold Src.C05.stageImproves
+  cases dW with
+  | some x => simp [C05emb, hd x rfl]
+  | none =>
+    cases seenW with
+    | none => simp [C05emb]
+    | some sw => simp [C05emb, hs sw rfl, Int.cast_lt]
+
+/-- the tie test `vw_dist == seen[w]` (a tentative distance is never the sentinel) -/
+theorem C05_src_stageTie (fmax : Rat) (seenW : Option Int) (vw : Int) (hv : (vw : Rat) ≠ fmax) :
+    (seenW == some vw) = Src.C05.stageTie (vw : Rat) (C05emb fmax seenW) := by
+  unfold Src.C05.stageTie
+  cases seenW with
+  | none => simp [C05emb, hv]
+  | some sw =>
+    rw [Bool.eq_iff_iff]
+    simp only [C05emb, beq_iff_eq, Option.some.injEq, decide_eq_true_eq, Int.cast_inj]
+    exact eq_comm
+
+/-- the path-count bookkeeping: reset to `0.0` when a strictly shorter route is found (dropping this reset is the defect class
+    of seeds S07 / S106 / S211), `sigma[w] += sigma[v]` on a tie -/
+theorem C05_src_stageSigma (sw sv : Rat) : (0 : Rat) = Src.C05.stageSigmaReset ∧ sw + sv = sw + Src.C05.stageSigmaTie sv := by
+  unfold Src.C05.stageSigmaReset Src.C05.stageSigmaTie; exact ⟨rfl, rfl⟩
 
 end Graphrs
